@@ -7,6 +7,7 @@ use super::{
         list::{ListStyle, ListStylist},
     },
     style::FoldStyle,
+    util::is_comment_node,
     ArenaDoc, Context, Mode, PrettyPrinter,
 };
 use crate::ext::StrExt;
@@ -77,6 +78,9 @@ impl<'a> PrettyPrinter<'a> {
             } else if node.kind() == SyntaxKind::Hash {
                 doc += self.arena.text("#");
                 peek_hash = true;
+            } else if is_comment_node(node) {
+                // Not as plain text: its later lines and trailing blanks would count for the width.
+                doc += self.convert_comment(ctx, node);
             } else {
                 // may be LeftParen, RightParen
                 doc += self.convert_trivia_untyped(node);
